@@ -3,7 +3,7 @@
 P=$1; shift
 git -C /repo apply $P || { echo APPLY-FAILED; exit 2; }
 for c in "$@"; do
-  ( cd /verif && timeout 1800 python3 check.py $c --tier ${TIER:-quick} > /tmp/seeded_$c.out 2>&1; echo "$c rc=$?"; grep -E "^VIOLATION|class=|KNOWN|ERROR" /tmp/seeded_$c.out | head -${LINES_MAX:-6} )
+  ( cd /verif && timeout ${SEEDED_TIMEOUT:-1800} python3 check.py $c --tier ${TIER:-quick} > /tmp/seeded_$c.out 2>&1; echo "$c rc=$?"; grep -E "^VIOLATION|class=|KNOWN|ERROR" /tmp/seeded_$c.out | head -${LINES_MAX:-6} )
 done
 git -C /repo checkout -- .
 # evidence and replay files written against the mutated tree are not evidence: restore them
